@@ -75,9 +75,14 @@ def hashlm_class():
     from pydrobert.torch.modules import MixableSequentialLanguageModel
 
     class HashLM(MixableSequentialLanguageModel):
-        def __init__(self, vocab_size, table, dtype):
+        def __init__(self, vocab_size, table, dtype, raw=False):
             super().__init__(vocab_size)
-            t = torch.tensor(table, dtype=torch.float64).log_softmax(-1).to(dtype)
+            t = torch.tensor(table, dtype=torch.float64)
+            if raw:  # unnormalised scores: every row shifted by its own constant (softmax-invariant)
+                t = t + (torch.arange(t.size(0), dtype=torch.float64) % 7 - 2.0).unsqueeze(1) * 0.9
+            else:
+                t = t.log_softmax(-1)
+            t = t.to(dtype)
             self.register_buffer("table", t)
             self.calls = []  # (hist, idx, h, n) as handed in
             self.counts = {"update_input": 0, "extract_by_src": 0, "mix_by_mask": 0}
